@@ -3985,7 +3985,11 @@ def _parse_simple_lines(
                         if isinstance(entry, bool):
                             pattern_values.append(1 if entry else 0)
                         elif isinstance(entry, (int, float)):
-                            pattern_values.append(int(entry))
+                            try:
+                                pattern_values.append(int(entry))
+                            except (OverflowError, ValueError):
+                                # inf / nan cannot be converted
+                                raise ValueError("flash_pattern values must be finite") from None
                         else:
                             raise ValueError("flash_pattern values must be numeric")
 
@@ -4447,7 +4451,11 @@ def _parse_simple_lines(
                 for entry in bitmap_value:
                     if not isinstance(entry, (int, float)):
                         raise ValueError("glyph bitmap must be a list of integers")
-                    bitmap_list.append(int(entry))
+                    try:
+                        bitmap_list.append(int(entry))
+                    except (OverflowError, ValueError):
+                        # inf / nan cannot be converted
+                        raise ValueError("glyph bitmap must be a list of integers") from None
                 if len(bitmap_list) != 8:
                     raise ValueError("glyph bitmap must contain 8 rows")
                 body.append(
